@@ -64,7 +64,7 @@ def gen_atom(rng, simple_only=False):
     t = lambda: rng.randint(1, 6)
     kinds = list(SIMPLE) if simple_only else list(SIMPLE) + ["d_is_the_e", "e_le_sub_an", "exists_an", "d_in_conc_psubs", "forall_subs",
                                                              "forall_items_an", "forall_subs_vs_d", "or", "not", "dn_le_an_flat",
-                                                             "p_has_elem", "pred_default", "forall_over_query_with_forall", "forall_flat_free_parent", "pred_conc_arg", "pred_conc_arg", "p_has_elem_gt_k"]
+                                                             "p_has_elem", "pred_default", "forall_over_query_with_forall", "forall_flat_free_parent", "pred_conc_arg", "pred_conc_arg", "p_has_elem_gt_k", "forall_subs_pred"]
     k = rng.choice(kinds)
     if k == "pk":
         return ["pk", op(), rng.randint(0, 4)]
@@ -76,8 +76,8 @@ def gen_atom(rng, simple_only=False):
         return ["e_in_tuple", sorted(rng.sample(range(1, 7), rng.randint(1, 4)))]
     if k == "e_obj_in":
         return ["e_obj_in", sorted(rng.sample(range(6), rng.randint(1, 4)))]
-    if k == "pred_default":
-        return ["pred_default", rng.choice([None, None, 1, 3, 5])]
+    if k in ("pred_default", "forall_subs_pred"):
+        return [k, rng.choice([None, None, 1, 3, 5])]
     if k == "p_has_elem":
         return ["p_has_elem", t()]
     if k == "forall_over_query_with_forall":
@@ -103,6 +103,10 @@ def gen_atom(rng, simple_only=False):
 
 def gen_case(rng):
     atoms = [gen_atom(rng) for _ in range(rng.randint(1, 3))]
+    if any(a[0] == "forall_subs_pred" for a in atoms) and not any(a[0] == "pred_default" for a in atoms) and rng.random() < 0.7:
+        # the same function predicate also called on the element itself, with another set of arguments
+        fa = next(a for a in atoms if a[0] == "forall_subs_pred")
+        atoms.insert(rng.randint(0, len(atoms)), ["pred_default", rng.choice([k for k in (None, 1, 3, 5) if k != fa[1]])])
     with_d = any(uses_d(a) for a in atoms)
     sel = rng.choice([["p", "e", "d"], ["e", "d"], ["d"], ["p", "d"], ["d", "e"]] if with_d else [["p", "e"], ["e"], ["p"], ["e", "p"]])
     world = gen_world(rng)
@@ -121,7 +125,9 @@ def gen_case(rng):
                               ["en_vs_pk_in_subquery", rng.choice([">", "<=", "!=", ">="])]]),
             "atoms": atoms, "sel": sel, "caching": rng.random() < 0.7,
             # the element spelled "an item of the parent": a nested description that selects the flatten and has no condition
-            "e_spelling": "an_entity_flatten" if rng.random() < 0.2 else "flatten"}
+            # ... or with a condition that holds for every element but has alternatives: or_(and_(n > t, n <= 6), n <= t)
+            "e_spelling": rng.choice(["an_entity_flatten", "an_entity_flatten_or"]) if rng.random() < 0.3 else "flatten",
+            "e_or_t": rng.randint(1, 5)}
 
 
 def build_world(w, perm=None):
@@ -172,6 +178,10 @@ def holds(a, p, x, d, es):
         return any(d is y for y in x.subs)
     if k == "d_in_conc_psubs":
         return any(d is y for it in p.items for y in it.subs)
+    if k == "forall_subs_pred":
+        # for_all(u, f_nd(u[, k])): the condition is a function predicate with a defaulted parameter; other atoms of the same
+        # query (and earlier queries of the process) call it on the same objects with another set of arguments
+        return all(u.n > (2 if a[1] is None else a[1]) for u in x.subs)
     if k == "forall_subs":
         return all(OPS[a[1]](u.n, a[2]) for u in x.subs)
     if k == "forall_items_an":
@@ -233,6 +243,10 @@ def build(case, es, ps, quant="an"):
         e = flatten(p.items)
         if case.get("e_spelling") == "an_entity_flatten":
             e = an(entity(e))
+        elif case.get("e_spelling") == "an_entity_flatten_or":
+            from entity_query_language import and_
+            t_ = case.get("e_or_t", 3)
+            e = an(entity(e, or_(and_(e.n > t_, e.n <= 6), e.n <= t_)))
         d = let(E, es)
 
         def sym(a):
@@ -278,6 +292,9 @@ def build(case, es, ps, quant="an"):
                 return in_(d, concatenate(e.subs))
             if k == "d_in_conc_psubs":
                 return in_(d, concatenate(flatten(p.items).subs))
+            if k == "forall_subs_pred":
+                u = flatten(e.subs)
+                return for_all(u, f_nd(u) if a[1] is None else f_nd(u, a[1]))
             if k == "forall_subs":
                 u = flatten(e.subs)
                 return for_all(u, OPS[a[1]](u.n, a[2]))
@@ -379,7 +396,7 @@ def check(c, ctx):
 
 
 FEATURE_TAGS = {
-    "C10": {"forall_subs", "forall_items_an", "forall_subs_vs_d", "forall_over_query_with_forall", "forall_flat_free_parent"},
+    "C10": {"forall_subs", "forall_items_an", "forall_subs_vs_d", "forall_over_query_with_forall", "forall_flat_free_parent", "forall_subs_pred"},
     "C15": {"d_is_the_e", "e_le_sub_an", "exists_an", "dn_le_an_flat", "p_has_elem", "p_has_elem_gt_k", "forall_items_an", "en_in_subquery", "en_vs_pk_in_subquery"},
     "C16": None,        # every IX query unnests a collection
     "C17": {"d_in_conc_p", "d_in_conc_esubs", "d_in_conc_psubs", "pred_conc_arg"},
